@@ -546,6 +546,7 @@ def sample_string(ast, rnd, depth=0):
     k = ast[0]
     if k == 'set':
         s = ast[1]
+        if not s: return b''      # empty set: the language is empty, any string will do for the callers
         pref = [b for b in s if 0x20 < b < 0x7f]
         return bytes([rnd.choice(pref if pref and rnd.random() < 0.9 else sorted(s))])
     if k == 'grp': return sample_string(ast[1], rnd, depth)
